@@ -171,18 +171,30 @@ def _lo_job(job):
     V2 = {(u, d): A.sym(f"V{u}{d}", True) * A.sym(f"V{u}{d}", True) for u in ew.UP for d in ew.DOWN}
     xB = A.sym("xB", True)
     mask = "dusbct"  # placeholder, replaced below
+    # kernels are tagged with the class that produced them; at LO all of them must be the delta distribution with
+    # coefficient 1, whichever class it came from: identify them
+    import re as _re
+
+    DELTA = A.sym("DELTA_CONV")
+    strip = _re.compile(r"@[\w.]+'")
     for j in range(ncol):
-        # the delta kernel's convolution atom: find it in any non-zero entry
         base = None
+        ident = {}
         for pid in op.pids:
             e = op.entry(key, pid, j)
             if isinstance(e, A.Rat):
-                atoms = [a for a in e.atoms() if a.startswith("conv(")]
-                if atoms:
-                    if len(set(atoms)) != 1 or "loc_from_delta[1]" not in atoms[0] or not atoms[0].startswith("conv('-|-|"):
-                        bad.append((pid, j, f"LO entry is not a pure delta-function kernel with coefficient 1: {sorted(set(atoms))[:2]}"))
-                    base = A.Rat(A.Poly.atom(atoms[0])) * xB
-                    break
+                for a in e.atoms():
+                    if a.startswith("conv("):
+                        core = strip.sub("'", a)
+                        if "loc_from_delta[1]" not in core or not core.startswith("conv('-|-|"):
+                            bad.append((pid, j, f"LO entry is not a pure delta-function kernel with coefficient 1: {a[:90]}"))
+                        ident[a] = DELTA
+        if ident:
+            base = DELTA * xB
+            for pid in op.pids:
+                e = op.entry(key, pid, j)
+                if isinstance(e, A.Rat):
+                    op.orders[key][0][op.pids.index(pid)][j] = A.subs(e, ident)
         for pid in op.pids:
             n += 1
             got = op.entry(key, pid, j)
@@ -272,13 +284,119 @@ def check_lo(rep, proj, tier):
     rep.floor("LO entries compared", n_entries, 2500)
 
 
+# ---------------------------------------------------------------------------
+# assignment of coefficient functions to partons at all orders (massless NC/EM)
+# ---------------------------------------------------------------------------
+import re
+
+_OWNER = re.compile(r"@light\.(\w+)\.(\w+)'")
+
+
+def _assign_job(job):
+    from .. import model
+
+    proj = model.project()
+    kind, process, nf, pto = job
+    cell = R.Cell(obs=f"{kind}_light", process=process, fns="ZM-VFNS", nfff=4, nf=nf, pto=pto, ren_sv=False, fact_sv=False)
+    try:
+        op = O.fold_op(proj, cell)  # opaque weights w(q, type)
+    except O.FoldFailure as f:
+        return ("fold", f.outcome.status, f"{f.outcome.etype} {f.outcome.msg}"[:140])
+    pv = kind in PV
+    t1, t2 = ("VA", "AV") if pv else ("VV", "AA")
+    xB = A.sym("xB", True)
+    W = {q: A.opaque("w", (q, t1)) + A.opaque("w", (q, t2)) for q in range(1, nf + 1)}
+    Wfl = {q: A.opaque("wfl11", (q, nf, "VV")) + A.opaque("wfl11", (q, nf, "AA")) for q in range(1, nf + 1)}
+    avg = sum((W[q] for q in W), A.Rat.const(0)) / nf
+    avgfl = sum((Wfl[q] for q in Wfl), A.Rat.const(0)) / nf
+    bad = []
+    n = 0
+    seen_tags = set()
+    for k in range(pto + 1):
+        key = (k, 0, 0, 0)
+        if key not in op.orders:
+            continue
+        atoms = set()
+        for row in op.orders[key][0]:
+            for e in row:
+                if isinstance(e, A.Rat):
+                    atoms |= {a for a in e.atoms() if a.startswith("conv(")}
+        for a in sorted(atoms):
+            m = _OWNER.search(a)
+            ad = A.ATOMS.get(a)
+            if m is None or ad is None or not ad.payload:
+                bad.append((k, 0, f"quadrature atom without a light-family producer: {a[:80]}"))
+                continue
+            cls = m.group(2)
+            j = ad.payload[1][2]
+            seen_tags.add(cls)
+            for p, pid in enumerate(op.pids):
+                n += 1
+                got = A.coeff_of(A.to_rat(op.orders[key][0][p][j]), a, 1)
+                q = abs(pid)
+                zero = A.Rat.const(0)
+                if "FL11" in cls:
+                    if "Gluon" in cls:
+                        exp = avgfl * xB if pid == 21 else zero
+                    else:
+                        exp = Wfl[q] * xB if 1 <= q <= nf and pid not in (21, 22) else zero
+                elif "NonSinglet" in cls:
+                    exp = (W[q] * xB * (-1 if (pv and pid < 0) else 1)) if 1 <= q <= nf and pid not in (21, 22) else zero
+                elif "Singlet" in cls:
+                    exp = avg * xB if 1 <= q <= nf and pid not in (21, 22) else zero
+                elif "Gluon" in cls:
+                    exp = avg * xB if pid == 21 else zero
+                elif "Valence" in cls:
+                    exp = (avg * xB * (1 if pid > 0 else -1)) if 1 <= q <= nf and pid not in (21, 22) else zero
+                else:
+                    bad.append((k, pid, f"kernel of class {cls} has no parton-assignment rule"))
+                    continue
+                if not O.same(got, exp):
+                    bad.append((k, pid, f"{cls} kernel enters row {pid} with {A.canon(got)[:70]} instead of {A.canon(exp)[:70]}"))
+    return ("cmp", n, bad[:3], len(bad), sorted(seen_tags))
+
+
+def check_assign(rep, proj, tier):
+    jobs = []
+    for kind, process, nf in itertools.product(["F2", "FL", "F3", "g1", "gL", "g4"], ["EM", "NC"], [3, 4, 5, 6]):
+        for pto in ([2] if tier == "quick" and kind not in ("F2", "FL") else [2, 3]):
+            if tier == "quick" and pto == 3 and nf not in (4, 5):
+                continue
+            jobs.append((kind, process, nf, pto))
+    outs = sweep.run_cells(_assign_job, jobs)
+    n_entries = 0
+    tags = set()
+    for job, o in zip(jobs, outs):
+        kind, process, nf, pto = job
+        label = f"{kind}_light {process} nf={nf} PTO={pto}"
+        if o[0] == "fold":
+            rep.undecided("C02.assign", "", label, f"not foldable ({o[1]}): {o[2]}")
+            continue
+        _, n, bad, nbad, seen = o
+        n_entries += n
+        tags.update(seen)
+        if nbad == 0:
+            rep.ok("C02.assign", "", label, f"{n} (kernel, parton row) coefficients: non-singlet kernels weighted per quark, singlet/gluon/valence by the flavour average")
+        else:
+            k, pid, txt = bad[0]
+            rep.bad("C02.assign", "src/yadism/coefficient_functions/light/kernels.py", label,
+                    f"{nbad} of {n} (kernel, parton) assignments wrong, e.g. order {k}: {txt[:300]}", key=label)
+    rep.info["assign_entries_compared"] = n_entries
+    rep.info["assign_channel_classes"] = sorted(tags)
+    rep.floor("assignment jobs", len(jobs), 40)
+    rep.floor("assignment coefficients compared", n_entries, 4000)
+
+
 def run(rep, proj, tier):
     rep.explanation = (
         "Decides, as identities in Q2, sin^2(theta_W), MZ, MW, beam polarisation, propagator correction and the nine CKM elements: "
         "the charge/isospin tables; get_weight for EM/NC x six quarks x VV/AA/VA/AV x e-/e+ (and neutrino beams up to the helicity "
         "convention) against the PDG expressions; propagator ratios; CC weights against the documented CKM partition; and that the partially "
         "evaluated LO operator of every kind in ZM-VFNS nf=3..6, for EM/NC/CC and the four projectiles, is the parton model: row q = weight x "
-        "(x conv(delta of coefficient 1)), row qbar = +/- that for parity conserving/violating kinds, zero elsewhere. "
+        "(x conv(delta of coefficient 1)), row qbar = +/- that for parity conserving/violating kinds, zero elsewhere; and at every order of "
+        "the massless EM/NC operators (ZM-VFNS nf=3..6, PTO 2 and 3) each kernel enters exactly the parton rows its class stands for: "
+        "non-singlet kernels with the quark's own weight (and the parity sign on antiquarks), singlet/gluon/valence and fl11 kernels with the "
+        "flavour average. "
         "NOT decided: the numerical CKM input and the delta-function quadrature (C01/C03)."
     )
     rep.rule_text = "instances enumerated from literal domains (processes, projectile table, quark pids, coupling types, masks, kinds, nf); distinct by construct."
@@ -289,3 +407,4 @@ def run(rep, proj, tier):
     check_weights(rep, proj)
     check_ww(rep, proj)
     check_lo(rep, proj, tier)
+    check_assign(rep, proj, tier)
